@@ -115,7 +115,10 @@ Section Parse.
   Variable ids : list ustring.
   Hypothesis Hclosed : closed_ok vr w ids = true.
   Hypothesis Hreg : registry_ok w = true.
-  Hypothesis Hpc : forallb (fun k => match find_class (wclasses w) k with Some c => parse_class_ok w c | None => false end) ids = true.
+  (* the parse entry points among them *)
+  Variable pids : list ustring.
+  Hypothesis Hsub : forallb (fun k => mem_ustr k ids) pids = true.
+  Hypothesis Hpc : forallb (fun k => match find_class (wclasses w) k with Some c => parse_class_ok w c | None => false end) pids = true.
 
   Notation RUN := (run vr ev w pattern_ok selectors_ok).
 
@@ -154,12 +157,14 @@ Section Parse.
 
   Theorem parse_roundtrip : forall fuel allow interop d ci Sv dfl hc,
     plain_dict d = true ->
-    mem_ustr ci ids = true ->
+    mem_ustr ci pids = true ->
     (amem id_key d = true \/ forall t, alookup type_key d = Some (JStr t) -> amem t (robservables (wreg21 w)) = false) ->
     RUN fuel (RParse allow interop None d) = Ok (PObject ci Sv dfl hc) ->
     RUN fuel (RParse allow interop None (omem (PObject ci Sv dfl hc))) = Ok (PObject ci Sv dfl hc).
   Proof.
-    intros fuel allow interop d ci Sv dfl hc Hp Hm Hid H.
+    intros fuel allow interop d ci Sv dfl hc Hp Hmp Hid H.
+    assert (Hm : mem_ustr ci ids = true).
+    { rewrite forallb_forall in Hsub. apply Hsub. apply mem_ustr_In. exact Hmp. }
     destruct fuel as [| f]; [cbn [run] in H; discriminate |].
     cbn [run] in H. change (u "type") with type_key in H.
     destruct (alookup type_key d) as [ty |] eqn:Ety; try discriminate.
@@ -189,10 +194,10 @@ Section Parse.
     destruct (class_for_found t vv k Ecf) as [c [Efc [Ever [Ectype Hsco]]]].
     destruct f as [| f']; [cbn [run] in Er; discriminate |].
     (* the class of the result is the class found *)
-    assert (Hk : mem_ustr k ids = true /\ ci = cid c).
+    assert (Hk : mem_ustr k ids = true /\ mem_ustr k pids = true /\ ci = cid c).
     { pose proof (run_construct_cid _ _ _ _ _ _ _ _ _ _ _ _ _ _ _ Er) as Ek. subst k.
       rewrite (find_class_cid _ _ _ Efc). auto. }
-    destruct Hk as [Hkm Eci]. subst ci.
+    destruct Hk as [Hkm [Hkp Eci]]. subst ci.
     assert (Hidk : id_given w k d = true).
     { unfold id_given. rewrite Efc. destruct (is_sco21 c) eqn:Es; cbn [negb orb]; auto.
       destruct Hid as [Hi | Hi]; [exact Hi |]. rewrite (Hi t eq_refl) in Hsco. specialize (Hsco eq_refl). discriminate. }
@@ -214,7 +219,7 @@ Section Parse.
     destruct (cg_idem vr ev w pattern_ok selectors_ok rc rp ro (nestable w ids) Hpad Hrc c' allow interop vrf Hnd Hslots (S f') d _ Hp Hcg)
       as [S' [hc' [Eobj [_ [_ Hgiven]]]]].
     inversion Eobj; subst S' dfl hc'. clear Eobj.
-    rewrite forallb_forall in Hpc. pose proof (Hpc k (proj1 (mem_ustr_In k ids) Hkm)) as Hpk. rewrite Efc in Hpk.
+    rewrite forallb_forall in Hpc. pose proof (Hpc k (proj1 (mem_ustr_In k pids) Hkp)) as Hpk. rewrite Efc in Hpk.
     unfold parse_class_ok in Hpk.
     apply andb_true_iff in Hpk. destruct Hpk as [Hpk Hver]. apply andb_true_iff in Hpk. destruct Hpk as [Hpk Hidslot].
     apply andb_true_iff in Hpk. destruct Hpk as [Htyslot Hnb].
